@@ -50,6 +50,10 @@ GRIDS = [
     # different data *locations*
     ("unst6", fm.UnstructuredGrid(_PTS6, _CELLS6, [fm.CellType.TRI] * 6)),
     ("unst6_pts", fm.UnstructuredGrid(_PTS6, _CELLS6, [fm.CellType.TRI] * 6, data_location=fm.Location.POINTS)),
+    # grid-less arrays: a flexible axis (-1) and two fixed lengths are three different sets of data locations
+    ("nogrid1_flex", fm.NoGrid(1)),
+    ("nogrid1_5", fm.NoGrid(data_shape=(5,))),
+    ("nogrid1_7", fm.NoGrid(data_shape=(7,))),
 ]
 GRID_NAMES = [n for n, _ in GRIDS]
 _A = np.zeros((2, 3), dtype=bool)
@@ -167,6 +171,7 @@ def relations():
 # cases
 # ---------------------------------------------------------------------------------------------
 U34 = [1, 2, 3]  # the 3x4 cell grids in their three layouts
+NOGRID1 = [9, 10, 11]  # one-dimensional grid-less data: flexible length, 5, 7
 SAME_DIM = {0: [0, 1, 5], 1: [0, 1, 5], 5: [0, 1, 5], 2: [2], 3: [3, 4], 4: [3, 4]}
 
 
@@ -180,7 +185,8 @@ def gen_info(rng, producer, adapter, partner=None):
     friendly = partner is not None and rng.random() < 0.8
     if friendly:
         pg = partner["grid"]
-        grid = rng.choice([pg, pg, None] + ([rng.choice(U34)] if pg in U34 else []) + ([7, 8] if pg in (7, 8) else []))
+        grid = rng.choice([pg, pg, None] + ([rng.choice(U34)] if pg in U34 else []) + ([7, 8] if pg in (7, 8) else [])
+                          + ([9, 10, 11, pg] if pg in NOGRID1 else []))
         if pg is None:
             grid = rng.choices([0, 1, 2, 3, 4, 6], [10, 40, 15, 10, 10, 5])[0]
         pu = partner["units"]
@@ -207,7 +213,9 @@ def gen_info(rng, producer, adapter, partner=None):
         elif r < 0.45:
             mask = rng.choice(fits)
     else:
-        grid = rng.choices([None, 0, 1, 2, 3, 4, 5, 6, 7, 8], [22, 10, 28, 12, 8, 8, 4, 6, 5, 5])[0]
+        grid = rng.choices([None, 0, 1, 2, 3, 4, 5, 6, 7, 8, 9, 10, 11], [22, 10, 28, 12, 8, 8, 4, 6, 5, 5, 4, 4, 3])[0]
+        if adapter in ("regrid", "g2v") and grid in NOGRID1:
+            grid = 0  # (grid-less arrays of rank 1 behind a regridding / grid-to-value adapter: outside the model)
         units = rng.choices([None, 0, 1, 2, 3, 4, 5], [22, 30, 15, 8, 8, 8, 9])[0]
         fits = _fits(grid)
         mask = rng.choice(fits) if rng.random() < 0.45 else "flex"
@@ -238,6 +246,10 @@ def gen_case(rng):
     else:
         branches = [{"adapter": rng.choices(kinds, w)[0], "n": 1}, {"adapter": rng.choices(kinds, w)[0], "n": 1}]
     out = gen_info(rng, True, None)
+    if out["grid"] in NOGRID1:
+        for b in branches:
+            if b["adapter"] in ("regrid", "g2v"):
+                b["adapter"] = "scale"
     bs = []
     for b in branches:
         ins = [gen_info(rng, False, b["adapter"], partner=out) for _ in range(b["n"])]
@@ -294,7 +306,10 @@ class Producer(fm.TimeComponent):
         try:
             info = self.outputs["out"].info
             g = info.grid
-            push["out"] = np.zeros(g.data_shape) if isinstance(g, fm.data.grid_base.Grid) else np.zeros(())
+            if isinstance(g, fm.data.grid_base.Grid):
+                push["out"] = np.zeros(g.data_shape)
+            else:
+                push["out"] = np.zeros(tuple(5 if n == -1 else n for n in g.data_shape))
         except fm.FinamNoDataError:
             pass
         self.try_connect(start_time, push_data=push)
@@ -420,7 +435,7 @@ def compare(case, impl, model):
 def locations(gid):
     g = GRIDS[gid][1]
     if isinstance(g, fm.NoGrid):
-        return ("nogrid", g.dim)
+        return ("nogrid", g.dim, tuple(int(x) for x in g.data_shape))
     pts = np.asarray(g.data_points)
     return tuple(sorted(tuple(np.round(p, 9)) for p in pts))
 
